@@ -340,7 +340,11 @@ def general(cx, rng, n):
                 cx.add("trts-partial-none", "%s = %r" % (call, res), p, "print(%s)" % call)
             continue
         cx.nontriv += 1
-        grazing = max(abs(c) for c in cs) > 0.96
+        # grazing: the path meets the altitude h0 at a shallow angle -- hour angle near 0/180 (|cos H0| > 0.96) or a diurnal
+        # altitude rate 360 cos(dec) cos(lat) sin(H0) below 60 deg/day (near the poles the declination motion dominates)
+        rate = min(360.0 * math.cos(math.radians(dd)) * math.cos(math.radians(p["lat"])) * math.sqrt(max(0.0, 1.0 - c * c))
+                   for dd, c in zip(decs, cs))
+        grazing = max(abs(c) for c in cs) > 0.96 or rate < 60.0
         out = []
         for idx, hrs in enumerate(res):
             m = hrs / 24.0
@@ -382,7 +386,7 @@ def search(rng, tier, deep):
              "rule": "seasons: %s years x 4 (longitude at the returned instant vs 90k within 1e-5 deg, order, 88-95 d, 365.2-365.3 d, ValueError outside); "
                      "equation of time: every day of %d sample years -2000..4000 (|E| bound, daily change < 45 s with the most favourable sign when |E| < 1 min); "
                      "rise_set: %d random/boundary places and dates 1900-2100 (altitude from apparent_geocentric_position + apparent_sidereal_time + equatorial2horizontal); "
-                     "times_rise_transit_set: %d synthetic linearly moving bodies (<= 1.5 deg/day), grazing = |cos H0| > 0.96 somewhere in the three days"
+                     "times_rise_transit_set: %d synthetic linearly moving bodies (<= 1.5 deg/day), grazing = |cos H0| > 0.96 or diurnal altitude rate < 60 deg/day somewhere in the three days"
                      % ("ALL -1000..3000" if full else "%d sampled/boundary" % len(years), len(eyears), nrs, ntr),
              "samples": [{"input": [2000, "spring"], "checked": "apparent longitude at the returned JDE within 1e-5 deg of 0"}],
              "findings_by_key": cx.seen,
